@@ -59,7 +59,7 @@ void one_case(Ctx &c) {
     CHECK(c, d.empty(), "dictionary-equals-model", "after %s: %s (shown: expected -> actual)", after, d.c_str());
   };
   int mode = 2; bool registered = false; int syncs_seen_by_sync_rpdo = 0;
-  int steps = 0;
+  int steps = 0; bool repeated_start = false;
   while (!c.t.exhausted() && steps < 120) {
     steps++; c.ops++;
     static const uint16_t W[5] = {50, 25, 12, 8, 5};
@@ -76,6 +76,9 @@ void one_case(Ctx &c) {
       s.rx(f);
       if (target >= 0) { Chan &r = ch[target]; if (!r.sync) apply(r, f.d); else { memcpy(r.buf, f.d, 8); r.pend = true; } }
       compare("an RPDO / near-miss frame");
+      // a repeated "start remote node" while the node is OPERATIONAL is no state change: nothing happens, a buffered synchronous frame stays buffered
+      // (decided from the payload, no extra tape choice)
+      if (mode == 3 && f.d[7] % 4 == 0) { s.clear_tx(); s.rx(Frame::mk(0, 2, {1, (uint8_t)(f.d[6] & 1 ? 0 : s.nodeid)})); VLOG(c, "NMT start repeated while OPERATIONAL"); compare("a repeated NMT start while OPERATIONAL"); repeated_start = true; }
     } else if (op == 1) { // SYNC
       VLOG(c, "SYNC");
       s.rx(Frame::mk(0x80, c.t.chance(40) ? 1 : 0, {9}));
@@ -100,7 +103,7 @@ void one_case(Ctx &c) {
 Registrar reg(Prop{
     "C13",
     "Cases: node id 1..127; RPDO table: each of 4 channels absent / asynchronous (254/255) / synchronous (type 0..240), valid or invalid COB-ID, distinct or colliding identifiers; mappings of 0..8 fields drawn from two 8-bit, one 16-bit, one 32-bit and one 24-bit-of-32 object and the dummy entries 0002h..0007h with their natural widths, total <= 8 bytes; "
-    "histories of up to 120 ops: RPDO frames with the mapped length or longer and random payloads, near-miss identifiers, SYNCs (DLC 0/1), NMT start/stop/pre-operational, local writes, ticks. "
+    "histories of up to 120 ops: RPDO frames with the mapped length or longer and random payloads, near-miss identifiers, SYNCs (DLC 0/1), NMT start/stop/pre-operational and repeated NMT start while OPERATIONAL, local writes, ticks. "
     "Oracle: model dictionary compared with a full storage snapshot after every step (asynchronous: consecutive little-endian fields written at once, dummies skipped by width; synchronous: buffered, applied at the next SYNC exactly once; nothing outside OPERATIONAL or for other identifiers; everything else byte-identical). "
     "Non-trivial: the case has a mapping with >= 2 fields or a dummy, or a synchronous RPDO saw >= 2 SYNCs. Distinct = distinct decoded choice sequence.",
     {Mode{"random", one_case, false, 1000000, 20000000, 0, 0, 300, 500}},
